@@ -273,6 +273,29 @@ def t11(ctx):
                       "%s stores the class's group after calling %s, which can itself change that class's group (the nested shrink-and-retry learns the part of a re-asserted symmetry that survives on the final slots): the outer call overwrites it with the snapshot it computed before — an established symmetry is lost, handles that were equal compare unequal" % (C.short(wid), c.callee.name),
                       where_of(b, c.bb))
     ctx.floor("slot-set writers with re-entrant unions", n, 1)
+    # the same for the other two pieces of state a shrink writes for ITS class: the slot set and the class's own union-find entry
+    # (the redundancy witness).  A nested shrink of the same class — the re-asserted symmetry exchanged a kept slot with a dropped
+    # one — writes a smaller entry; recording the outer, larger one afterwards brings the dropped slot back into every handle.
+    ufs = set(C.uf_setters(crate))
+    ufw = {b_.id for b_ in crate.fns() if b_.id not in reach_m and ufs & (crate.reachable_from([b_.id], resolve_traits=False) | {b_.id})}
+    m = 0
+    for wid in sw:
+        b = mir.inline_view(crate, crate.bodies[wid], keep=tuple(sorted(reach_m | ufw)))
+        reent = [c for c in b.calls if c.callee and c.callee.target in reach_m and not b.blocks[c.bb]["cleanup"]]
+        wr = [(c.bb, c.callee.name) for c in b.calls if c.callee and c.callee.target in ufw and not b.blocks[c.bb]["cleanup"] and c.args
+              and str(b.local_ty(mir.op_place(c.args[0])["l"]) if mir.op_place(c.args[0]) else "").startswith("&mut")]
+        wr += [(c.bb, c.callee.name) for c in b.calls if c.callee and c.callee.target in ufw and not b.blocks[c.bb]["cleanup"] and (c.bb, c.callee.name) not in wr and c.callee.target in ufs]
+        wr += [(bi, "slots :=") for bi, si, s_ in b.statements() if s_["k"] == "assign" and mir.place_has_field(s_["lhs"], C.ECLASS, "slots") and not b.blocks[bi]["cleanup"]]
+        if not reent or not wr:
+            continue
+        m += 1
+        for c in reent:
+            after = b.reach(b.after(c.bb))
+            later = sorted({nm for bi, nm in wr if bi in after})
+            ctx.check(not later, "class-state-written-before-reentry:" + C.fkey(crate.bodies[wid]), "%s writes the class's slot set and its union-find entry before the re-entrant %s" % (C.short(wid), c.callee.name),
+                      "%s runs %s after the re-entrant %s: that call can shrink the SAME class further (a re-asserted symmetry that exchanges a kept with a dropped slot) and record the smaller slot set / union-find entry; the late write puts the outer, larger one back — old handles of the class get the dropped slot again, the following union sees equal slot sets and merges without shrinking, and an equality that held is lost" % (C.short(wid), ", ".join(later), c.callee.name),
+                      where_of(b, c.bb))
+    ctx.floor("slot-set writers whose class-state writes are ordered against re-entrant unions", m, 1)
 
 
 RULES.append(t11)
@@ -334,3 +357,53 @@ def t16(ctx):
 
 
 RULES.append(t16)
+
+
+@rule("T17", doc="canonicalising an e-node canonicalises every child handle for itself: the step find_enode applies to child i answers, on every path, with find_applied_id of THAT child's invocation — no memo keyed by the class id alone (two children that refer to one stale class with different arguments would get the same arguments, and the parent loses a slot)")
+def t17(ctx):
+    crate = ctx.lib()
+    bs = [b for b in crate.by_name.get("proven_proven_find_enode", []) if b.kind != "Closure"]
+    if len(bs) != 1:
+        raise mir.AnchorMissing("EGraph::proven_proven_find_enode")
+    b = mir.inline_view(crate, bs[0], keep=("chain_pn_map", "proven_proven_find_applied_id", "proven_find_applied_id", "find_applied_id"))
+    FIND = ("proven_proven_find_applied_id", "proven_find_applied_id", "find_applied_id")
+    n = 0
+    for c in b.calls:
+        if not (c.callee and c.callee.name in ("chain_pn_map", "chain_pc_map") and not b.blocks[c.bb]["cleanup"]):
+            continue
+        cl = C._closure_of_role(crate, b.role_of_operand(c.args[-1]))
+        if not hasattr(cl, "calls"):
+            raise mir.AnchorMissing("the step closure find_enode hands to chain_pn_map")
+        n += 1
+        cv = mir.inline_view(crate, cl, keep=FIND)
+        r = strip_role(cv.role_of_local(0))
+        alts = list(r[1]) if isinstance(r, tuple) and r[0] == "phi" else [r]
+        pai = cv.var_names.get(cv.argc)          # the last closure parameter: the proven child invocation
+        ok = True
+        for a in alts:
+            a = strip_role(a)
+            while isinstance(a, tuple) and a[0] == "call" and a[1] in ("clone", "into") and a[3]:
+                a = strip_role(a[3][0])
+            arg = strip_role(a[3][-1]) if isinstance(a, tuple) and a[0] == "call" and a[3] else None
+            while isinstance(arg, tuple) and arg[0] == "call" and arg[1] in ("clone", "borrow", "deref") and arg[3]:
+                arg = strip_role(arg[3][0])
+            ok = ok and isinstance(a, tuple) and a[0] == "call" and a[1] in FIND and arg == ("param", pai)
+        others = sorted({x.callee.name for sub in cv.all_bodies() for x in sub.calls if x.callee and not sub.blocks[x.bb]["cleanup"] and x.callee.name in ("push", "insert", "find", "get", "borrow_mut", "entry")})
+        ctx.check(ok and not others, "find-enode-childwise", "the step applied to a child is find_applied_id of that child's own invocation, on every path",
+                  "find_enode's per-child step answers with %s%s: every child handle must be canonicalised for itself — an answer looked up by class id (a memo / cache) carries the ARGUMENTS of another child that refers to the same class" % (" | ".join(role_str(x)[:60] for x in alts), (" and keeps state through " + ", ".join(others)) if others else ""),
+                  where_of(cl))
+    if n == 0:
+        # loop form: for x in node.applied_id_occurrences_mut() { *x = find_applied_id(x) }
+        stores = [(bi, s) for bi, si, s in b.statements() if s["k"] == "assign" and s["lhs"]["p"] == ["*"] and not b.blocks[bi]["cleanup"] and "AppliedId" in b.local_ty(s["lhs"]["l"])]
+        if not stores:
+            raise mir.AnchorMissing("the per-child step of find_enode (closure handed to chain_pn_map, or a loop writing over the children)")
+        for bi, s in stores:
+            n += 1
+            v = strip_role(b.role_of_rvalue(s["rv"]))
+            dst = strip_role(b.role_of_local(s["lhs"]["l"]))
+            ok = isinstance(v, tuple) and v[0] == "call" and v[1] in FIND and any(strip_role(x) == dst for x in role_walk(v[3][-1]))
+            ctx.check(ok, "find-enode-childwise", "each child is overwritten with find_applied_id of itself", "find_enode overwrites a child with %s" % role_str(v)[:100], where_of(b, bi))
+    ctx.floor("per-child canonicalisation steps of find_enode", n, 1)
+
+
+RULES.append(t17)
